@@ -106,10 +106,11 @@ impl WorldA {
         if hostile_conn {
             w[11] = 30;
         }
-        if matches!(self.fam, Fam::Lossy | Fam::Budget) && self.cfg.get("overflow") == 0 && rng.chance(1, 90) {
+        if matches!(self.fam, Fam::Lossy | Fam::Budget) && self.cfg.get("overflow") == 0 && rng.chance(1, 180) {
             let n = self.nchan(i, d);
             if n > 0 {
-                return Op::new(K_SUBMITBURST, i as u64, d as u64, rng.below(n as u64), rng.below(61 * 7));
+                let tiny = if rng.chance(1, 4) { 427 } else { 0 };
+                return Op::new(K_SUBMITBURST, i as u64, d as u64, rng.below(n as u64), tiny + rng.below(61 * 7));
             }
         }
         let pick = rng.weighted(&w);
